@@ -58,10 +58,13 @@ AtLimit == <<
    Req("POST", "/a4", "chunked", Limit, <<Limit - 1, 1>>, << >>),
    Req("POST", "/a5", "chunked", Limit, Ones(Limit), << >>) >>
 
+\* (Limit is deliberately not a power of two: a body buffer that an at-limit request left behind has spare capacity
+\*  beyond the limit, so "over the limit" must be decided by counting, not by running out of buffer)
 Scripts == [k \in 1 .. Len(Over) |-> <<Over[k], Probe>>]
            \o [k \in 1 .. Len(Over) |-> <<Probe, Over[k]>>]
            \o [k \in 1 .. Len(AtLimit) |-> <<AtLimit[k], Probe>>]
            \o [k \in 1 .. Len(AtLimit) |-> <<AtLimit[k], Over[((k * 3) % Len(Over)) + 1]>>]
+           \o [k \in 1 .. 4 |-> <<AtLimit[1], Over[k + 6]>>] \o [k \in 1 .. 4 |-> <<AtLimit[4], Over[k + 6]>>]   \* ... then chunked just over it
 
 Case(k) == [id |-> k, script |-> Scripts[k], wire |-> Encode(Scripts[k]), offs |-> Offsets(Scripts[k]),
             behs |-> [i \in 1 .. Len(Scripts[k]) |-> "ok"],
